@@ -78,6 +78,8 @@ def cases(draw, tier='quick'):
     mode = draw(st.sampled_from(['norm_rg', 'norm_fg', 'gbp', 'gbp', 'gbp_deep', 'lbp', 'lbp']))
     if mode == 'gbp_deep':
         dom = draw(gen.domains(6, 8, 1, 2, cap=4096))
+    elif mode == 'gbp' and draw(st.booleans()):
+        dom = draw(gen.domains(6, 8, 1, 3, cap=4096))       # room for three-level region graphs with several branches
     else:
         dom = draw(gen.domains(2, 6, 1, 3, cap=4096))
     attrs = dom['attrs']
